@@ -24,7 +24,8 @@ MIRRORS = [('enspara/cluster/kmedoids.py', ['kmedoids', '_kmedoids_inputs_tree',
            ('enspara/cluster/hybrid.py', ['hybrid']),
            ('enspara/cluster/util.py', ['assign_to_nearest_center', 'find_cluster_centers'])]
 
-KINDS = ('kmedoids', 'KMedoids.fit', 'pam_update', 'hybrid', 'KHybrid.fit')
+GEN_KINDS = ('kmedoids', 'KMedoids.fit', 'pam_update', 'hybrid', 'KHybrid.fit')
+KINDS = GEN_KINDS + ('kmedoids_feedback',)
 
 
 def msq(d):
@@ -44,18 +45,20 @@ def start_state(P, case):
     if kind in ('hybrid', 'KHybrid.fit'):
         o = base.run_real(P, dict(case, kind='kcenters' if kind == 'hybrid' else 'KCenters.fit'))
         return o.get('ok')
-    if case.get('state') is not None and (kind == 'pam_update' or case.get('warm') == 'all'):
+    if case.get('state') is not None and (kind == 'pam_update' or case.get('warm', 'all' if kind == 'kmedoids_feedback' else None) == 'all'):
         st = case['state']
         return {'inds': [int(i) for i in st['inds']], 'assign': np.array(st['assign']),
                 'dist': np.array(st['dist'], dtype=float), 'centers': [P.X[i] for i in st['inds']]}
     return None
 
 
-def history(ctx, P, case, final):
+def history(ctx, P, case, final, rec_rounds=()):
     """results after 1..T sweeps from the real code (prefix runs)"""
     kind = case['kind']
     T = case.get('n_iters', 1) or 0
     hist = []
+    if kind == 'kmedoids_feedback':
+        return list(rec_rounds), None
     if kind == 'pam_update':
         # chain of single sweeps, feeding the output back in
         cur = final
@@ -94,7 +97,7 @@ def extra(ctx, rec, model):
         return fail('same seed / proposals, different result')
     ctx.tag('reproducible')
     s0 = start_state(P, case)
-    hist, err = history(ctx, P, case, final)
+    hist, err = history(ctx, P, case, final, out.get('rounds', ()))
     if err:
         return fail(err)
     seq = ([s0] if s0 is not None else []) + hist
@@ -125,7 +128,7 @@ def extra(ctx, rec, model):
         if msq(final['dist']) > msq(s0['dist']) * (1 + 1e-12):
             return fail('k-hybrid cost %r above its k-centers start %r' % (msq(final['dist']), msq(s0['dist'])))
         ctx.tag('hybrid<=kcenters')
-    if case.get('state') is not None and kind != 'pam_update' and case.get('warm') != 'all':
+    if case.get('state') is not None and kind not in ('pam_update', 'kmedoids_feedback') and case.get('warm') != 'all':
         # warm start from part of a Consistent state: guarantees relative to that state's cost
         # (the arrays are recomputed / centers inferred; both describe the same clustering cost)
         c0 = msq(case['state']['dist'])
@@ -143,7 +146,7 @@ def extra(ctx, rec, model):
 
 
 def gen_case(rng, kind=None, nmax=14):
-    kind = kind or str(rng.choice(KINDS, p=[.3, .1, .25, .25, .1]))
+    kind = kind or str(rng.choice(GEN_KINDS, p=[.3, .1, .25, .25, .1]))
     c = base.gen_case(rng, kind=kind, nmax=nmax)
     if kind == 'pam_update':
         c['chain'] = int(rng.integers(1, 5))
@@ -156,13 +159,16 @@ def run(ctx):
     with base.one_thread():
         rng = ctx.rng
         cases = []
-        for kind in KINDS:
+        for kind in GEN_KINDS:
             for _ in range(ctx.n(8, 60)):
                 cases.append(gen_case(rng, kind=kind))
         for _ in range(ctx.n(700, 9000)):
             cases.append(gen_case(rng))
         for _ in range(ctx.n(20, 400)):
             cases.append(gen_case(rng, nmax=40))
+        # families of the generator blind-spot audit (containers/dtypes/layouts, scaled tables, exact cost ties,
+        # degenerate structure, reused / fed-back state objects, sweep-count corners)
+        cases += base.audit_families(ctx, kinds=KINDS)
         # large-n family (frame indices / labels beyond the narrow integer types; oracle only)
         cases += [c for c in base.large_family(ctx) if c['kind'] in KINDS]
         for c in base.tiny_tables(ctx, 3):
@@ -171,7 +177,9 @@ def run(ctx):
             cases.append(c)
         base.check_cases(ctx, cases, area='C09', extra=extra)
         need = ['pam-branch-dn', 'pam-branch-other', 'pam-branch-this', 'pam-accept', 'pam-reject',
-                'cost-decreased', 'cost-unchanged', 'hybrid<=kcenters', 'warm-start-cost<=', 'model-agrees', 'large-n', 'center-index>=256', 'k>255', 'n>65536',
+                'cost-decreased', 'cost-unchanged', 'hybrid<=kcenters', 'warm-start-cost<=', 'model-agrees', 'large-n', 'center-index>=256', 'k>255', 'n>65536', 'family=containers', 'family=scaled', 'family=exact-ties',
+                'family=degenerate', 'family=reuse', 'family=config', 'pam-exact-tie-other-candidate',
+                'pam-accept-after-exact-tie', 'same-objects-reused', 'fed-back-rounds-agree', 'proposals=current-medoids',
                 'sweep-by-sweep-agrees', 'reproducible']
         ctx.note('under_covered', [t for t in need if not ctx.tags.get(t)])
 
